@@ -84,6 +84,10 @@ func (e *Engine) canProceed(st *State, th *Thread) bool {
 		return e.selectReady(st, th, b.Aux.([]selCase))
 	case "join":
 		return st.Threads[b.Obj].Status == TDone
+	case "pipe-drain": // writer on a full pipe: proceeds once a reader drains it
+		return st.Ghost[fmt.Sprintf("pipedrain:%d", b.Obj)] != nil
+	case "pipe-closed": // io.Copy from a pipe: returns once the write end is closed
+		return st.Ghost[fmt.Sprintf("pipeclosed:%d", b.Obj)] != nil
 	case "cond":
 		return false // woken explicitly
 	}
